@@ -814,3 +814,19 @@ Proof.
   intros W HR E K. eapply noold_never_runs_original; eauto.
   destruct K as [K|K]; rewrite K; discriminate.
 Qed.
+
+
+(* the first root (the std runtime, called by the entry function before main.init) has
+   run completely before anything that is not below it *)
+Lemma first_root_prefix g r roots : wf g = true -> r < length g -> Forall (fun r => r < length g) roots ->
+  exists t, exec g (r :: roots) = exec g [r] ++ t /\ In (EMain r) (exec g [r]).
+Proof.
+  intros W Hr HR.
+  assert (H1 : Forall (fun r => r < length g) [r]) by (constructor; auto).
+  assert (H2 : Forall (fun r => r < length g) (r :: roots)) by (constructor; auto).
+  rewrite !exec_is_postorder by assumption. unfold dedup. cbn [flat_map]. rewrite app_nil_r, add_new_app.
+  destruct (add_new_prefix (add_new [] (postorder g r)) (flat_map (postorder g) roots)) as [t Ht].
+  exists t. split; [exact Ht|]. apply add_new_In. right.
+  destruct (nth_error g r) as [pk|] eqn:E; [eapply In_postorder_self; eauto|].
+  apply nth_error_None in E. lia.
+Qed.
